@@ -28,6 +28,9 @@ void do_waff(Toks &tk, std::ostream &os) { unavailable(tk, os, "W", "comp_files"
 void do_parse(Toks &tk, std::ostream &os) { unavailable(tk, os, "P", "comp_files"); }
 void do_raff(Toks &tk, std::ostream &os) { unavailable(tk, os, "A", "comp_files"); }
 #endif
+#ifdef STUB_COMP_SOLVER
+void do_srun(Toks &tk, std::ostream &os) { unavailable(tk, os, "S", "comp_solver"); }
+#endif
 #ifdef STUB_COMP_RNG
 void do_rng(Toks &tk, std::ostream &os) { unavailable(tk, os, "R", "comp_rng"); }
 #endif
